@@ -1,0 +1,23 @@
+//go:build !verif
+
+// Package verifhook is instrumentation used only by the external verification
+// harness. Without the "verif" build tag every function is an empty stub.
+package verifhook
+
+// Enabled reports whether the hooks are compiled in.
+const Enabled = false
+
+// Event is a no-op without the verif build tag.
+func Event(point string, kv ...any) {}
+
+// Yield is a no-op without the verif build tag.
+func Yield(point string) {}
+
+// Busy is a no-op without the verif build tag.
+func Busy(delta int) {}
+
+// RegisterProbe is a no-op without the verif build tag.
+func RegisterProbe(key any, f func() bool) {}
+
+// UnregisterProbe is a no-op without the verif build tag.
+func UnregisterProbe(key any) {}
